@@ -13,7 +13,8 @@ from .c13 import positions, get, put
 LEVEL = "exploration"
 RULE = (
     "writer schema W from the family (no namespaces; recursion only through unions) and hand-written evolution schemas; reader R "
-    "derived from W by every single (thorough: every pair of) evolution step at EVERY position: reorder fields, drop a field, "
+    "derived from W by every single evolution step at EVERY position (pairs of steps: a fixed 1/8 sub-lattice for the hand-written "
+    "schemas in quick, 1/15 for every schema in thorough): reorder fields, drop a field, "
     "add a field with/without default, rename a field with/without alias, every primitive replaced by every other primitive "
     "(all promotions and all non-promotions), enum symbol added/removed/reordered with/without enum default, fixed size "
     "changed, named type renamed with/without alias, definition moved between inline and by-reference positions, wrap in / "
@@ -322,14 +323,14 @@ def run_unit(i, tier):
     st = steps(W)
     for label, R in st:
         run_pair(fa, res, W, wnode, wdefs, label, R, data, seen, tier)
-    if tier == "thorough":
-        for label, R in st[1::3]:
+    if tier == "thorough" or i < len(HAND):
+        for label, R in (st[1::3] if tier == "thorough" else st[1::2]):
             try:
                 names.resolve(R)
             except Exception:
                 continue
-            for label2, R2 in steps(R)[1::5]:
-                run_pair(fa, res, W, wnode, wdefs, label + "+" + label2, R2, data[:12], seen, tier)
+            for label2, R2 in (steps(R)[1::5] if tier == "thorough" else steps(R)[1::4]):
+                run_pair(fa, res, W, wnode, wdefs, label + "+" + label2, R2, data[:12] if tier == "thorough" else data[:4], seen, tier)
     res.distinct = len(seen)
     res.stats["reader_schemas"] += len(st)
     res.sample({"W": W, "steps": len(st), "example_step": st[min(3, len(st) - 1)][0], "R": st[min(3, len(st) - 1)][1]})
